@@ -4,7 +4,7 @@
 From Coq Require Import Ascii String List Bool PArith NArith FMapPositive Permutation.
 From PTBase Require Import Exn PyStr.
 From Gen Require Import GenFlags.
-From P Require Import Assoc GridEdit GridLemmas Inv InvRock InvBlock InvConn InvRename InvReorder InvMinc InvAdd InvEmbed InvDec InvAfter Reach Witness.
+From P Require Import Assoc GridEdit GridLemmas Inv InvRock InvBlock InvConn InvRename InvReorder InvMinc InvAdd InvEmbed InvDec InvAfter InvTotal Reach Witness.
 Import ListNotations.
 Open Scope list_scope.
 
@@ -139,3 +139,32 @@ Theorem example_self_connection_can_be_deleted :
   (exists g', step g_self (DelBlock a1) = Ok g' /\ blist g' = [] /\ clist g' = [] /\ inv_b g' = true).
 Proof. exact delete_self_connection_ok. Qed.
 Print Assumptions example_self_connection_can_be_deleted.
+
+(** WHEN an edit of a consistent grid is refused, exactly (InvTotal.v): the internal list.index / list.remove /
+    set.remove / dictionary look-ups of the methods can not fail on a consistent grid, so an edit raises only
+    where the Python text raises on purpose or looks up a name given by the caller.  Each holds for every
+    setting of the variant flags. *)
+Theorem add_rocktype_never_raises : forall g n, Inv g -> exists g', add_rocktype g n = Ok g'.
+Proof. exact add_rocktype_total. Qed.
+Print Assumptions add_rocktype_never_raises.
+Theorem clean_rocktypes_never_raises : forall g, Inv g -> exists g', clean_rocktypes g = Ok g'.
+Proof. exact clean_rocktypes_total. Qed.
+Print Assumptions clean_rocktypes_never_raises.
+Theorem delete_rocktype_refused_exactly_when : forall g n e, Inv g ->
+  (delete_rocktype g n = Raise e <-> delete_rocktype_refuses = true /\ e = PlainException /\ rock_in_use g n).
+Proof. exact delete_rocktype_raises_iff. Qed.
+Print Assumptions delete_rocktype_refused_exactly_when.
+Theorem rename_rocktype_refused_exactly_when : forall g a b e,
+  rename_rocktype g a b = Raise e <-> e = PlainException /\ (rget g a = None \/ rget g b <> None).
+Proof. exact rename_rocktype_raises_iff. Qed.
+Print Assumptions rename_rocktype_refused_exactly_when.
+Theorem add_connection_refused_exactly_when : forall g n0 n1 e, Inv g ->
+  (add_connection g n0 n1 = Raise e <-> e = KeyError /\ (bget g n0 = None \/ bget g n1 = None)).
+Proof. exact add_connection_raises_iff. Qed.
+Print Assumptions add_connection_refused_exactly_when.
+Theorem add_block_refused_exactly_when : forall g n rk e, Inv g ->
+  (add_block g n rk = Raise e <->
+   (e = KeyError /\ rget g rk = None) \/
+   (e = PlainException /\ add_block_refuses = true /\ rget g rk <> None /\ replaces_connected g n)).
+Proof. exact add_block_raises_iff. Qed.
+Print Assumptions add_block_refused_exactly_when.
